@@ -403,8 +403,9 @@ func c16Oracle(c *cConfig, v c16Verdict, desc string) []Fail {
 
 // ---------------------------------------------------------------- Run
 
-func c16Describe(c *cConfig) string {
-	y := c.Render()
+func c16Describe(c *cConfig) string { return c16DescribeText(c.Render()) }
+
+func c16DescribeText(y string) string {
 	y = strings.ReplaceAll(y, "\n", "\\n")
 	if len(y) > 1500 {
 		y = y[:1500] + "..."
@@ -413,10 +414,29 @@ func c16Describe(c *cConfig) string {
 }
 
 // c16EvalCase evaluates all configurations of a case on one child, in order.
-func (p *c16Pool) evalCase(worker int, kind int, toks [][]byte, orch bool) c16Result {
-	confs, err := decodeConfigs(kind, toks)
-	if err != nil {
-		return c16Result{out: "badcase"}
+func (p *c16Pool) evalCase(worker int, cs *Case) c16Result {
+	kind := cs.Kind
+	orch := len(cs.Z) == 0 || cs.Z[0] != 0
+	if kind == 2 {
+		// a YAML value decoded into a config holder: a direct call, no child process needed
+		out, fails := c16HolderRunDirect(cs)
+		return c16Result{out: out, fails: fails}
+	}
+	var confs []*cConfig
+	opts := c16CaseOpts(cs)
+	if kind == 3 {
+		// a YAML value at a typed component site of a base configuration
+		base, o, ok := c16FileShapeCase(p.dir, cs)
+		if !ok {
+			return c16Result{out: "badcase"}
+		}
+		confs, opts, orch = []*cConfig{base}, o, false
+	} else {
+		var err error
+		confs, err = decodeConfigs(kind, cs.S)
+		if err != nil {
+			return c16Result{out: "badcase"}
+		}
 	}
 	ch := p.children[worker]
 	p.mu.Lock()
@@ -429,7 +449,8 @@ func (p *c16Pool) evalCase(worker int, kind int, toks [][]byte, orch bool) c16Re
 	for i, c := range confs {
 		yamlPath := fmt.Sprintf("%s-%d.yml", base, i)
 		recPath := fmt.Sprintf("%s-%d.rec", base, i)
-		os.WriteFile(yamlPath, []byte(c.Render()), 0o644)
+		text, _ := c.RenderWith(opts)
+		os.WriteFile(yamlPath, []byte(text), 0o644)
 		os.WriteFile(recPath, []byte(strings.Join(c16Records(c), "\n")+"\n"), 0o644)
 		v := ch.eval(yamlPath, recPath, orch)
 		if v.Detail == "hang" {
@@ -453,9 +474,18 @@ func (p *c16Pool) evalCase(worker int, kind int, toks [][]byte, orch bool) c16Re
 		if v.Verify != "ok" {
 			allOK = false
 		}
-		desc := c16Describe(c)
+		desc := c16DescribeText(text)
 		if len(confs) > 1 {
 			desc = fmt.Sprintf("configuration %d of a sequence of %d loaded by one process: %s", i+1, len(confs), desc)
+		}
+		if kind == 3 {
+			// the file is the base configuration with one component replaced: only "no panic" is demanded here
+			// (whether the value names a component is the model's answer, compared through the output)
+			if v.Panicked() {
+				fails = append(fails, Fail{c16Sig(v), fmt.Sprintf("%s, stage %s: %s -- a %s component given as the YAML value %q -- configuration: %s",
+					v.String(), v.Stage, v.Detail, cs.S[1], cs.S[0], desc)})
+			}
+			continue
 		}
 		fails = append(fails, c16Oracle(c, v, desc)...)
 	}
@@ -490,7 +520,7 @@ func c16Run(c *Case) (string, []Fail) {
 	if ok {
 		return r.out, r.fails
 	}
-	r = p.evalCase(0, c.Kind, c.S, len(c.Z) == 0 || c.Z[0] != 0)
+	r = p.evalCase(0, c)
 	return r.out, r.fails
 }
 
@@ -504,7 +534,7 @@ func (p *c16Pool) precompute(cases []*Case) {
 		go func(w int) {
 			defer wg.Done()
 			for i := w; i < len(cases); i += n {
-				r := p.evalCase(w, cases[i].Kind, cases[i].S, len(cases[i].Z) == 0 || cases[i].Z[0] != 0)
+				r := p.evalCase(w, cases[i])
 				p.mu.Lock()
 				p.cache[cases[i].Line()] = r
 				p.mu.Unlock()
